@@ -295,7 +295,18 @@ Definition call (cfg : config) (lookup : N -> option session) (now : N) (d : dea
            (caller : session) (req : N) (opts : dict) (proc : string) (args : list value) (kw : dict)
            (oracle : N) : call_result :=
   let csid := s_id caller in
-  let no_proc := CallRefused d [(csid, RError c_CALL req [] e_no_such_procedure [] [])] in
+  (* no registration: the ERROR is the final reply, so a pending progressive
+     call with this request id (a refused further chunk) ends here *)
+  let no_proc :=
+    let cid0 := (csid, req) in
+    let d' := match cget (d_bycall d) cid0 with
+              | Some ikey0 =>
+                  let dt := match cget (d_invs d) ikey0 with
+                            | Some inv0 => cancel_timer d (inv_timer inv0) | None => d end in
+                  drop_call dt cid0 ikey0
+              | None => d
+              end in
+    CallRefused d' [(csid, RError c_CALL req [] e_no_such_procedure [] [])] in
   match match_procedure d proc oracle with
   | None => no_proc
   | Some r =>
